@@ -4,7 +4,7 @@
    container, writer and reader), C05/TskFile.v (tskit's column schema layer). *)
 From Coq Require Import List ZArith Permutation Sorted.
 From TskVerif Require Import Base.Common Gen.Generated C05.Bytes C05.Kastore C05.KastoreProofs C05.TskFile
-  C05.TskProofs C05.StreamProofs C10.TruncProofs.
+  C05.TskProofs C05.StreamProofs C05.SearchProofs C10.TruncProofs.
 Import ListNotations.
 Open Scope Z_scope.
 
@@ -38,6 +38,15 @@ Proof. exact KastoreProofs.kas_roundtrip_any_sort. Qed.
 Theorem sort_items_sorted_permutation : forall its,
   Permutation (sort_items its) its /\ StronglySorted key_le (sort_items its).
 Proof. exact (fun its => conj (sort_perm its) (sort_sorted its)). Qed.
+
+(* ... and after the round trip kastore_get (bsearch with compare_items) finds every key that was
+   put, with exactly its type, length and bytes, and reports every other key as absent *)
+Theorem kas_lookup_after_roundtrip : forall its rest key,
+  Forall item_ok its -> zlen its < 4294967296 -> kas_size (sort_items its) < two64 -> NoDup (map ikey its) ->
+  exists rs, kas_open true (kas_encode its ++ rest) = Ok (rs, rest) /\
+    ((exists it r, In it its /\ ikey it = key /\ kas_get rs key = Ok (Some r) /\ item_of r = Ok it)
+     \/ (~ In key (map ikey its) /\ kas_get rs key = Ok None)).
+Proof. exact SearchProofs.kas_lookup_after_roundtrip. Qed.
 
 (* (c) offset columns: written as uint32 exactly when the last offset fits, as uint64 otherwise;
    reading back (widening) returns the same offsets *)
